@@ -14,7 +14,12 @@ for line in open(sys.argv[1]):
         id = os.path.basename(f).replace('.patch', '')
         what = open(os.path.join('/verif', f)).read().split('\n')[1].lstrip('# ')
         origin = 'own'
-    kinds = re.findall(r'\[check\] ([a-z_]+):', rest)
+    kinds = [k for k in re.findall(r'\[check\] ([a-z_]+):', rest) if k not in ('note', 'sweep')]
+    if not kinds:
+        # the RESULT line only carries the first [check] line: read the violation kind from the recorded witness
+        for rp in re.findall(r'replay=(\S+)', rest):
+            try: kinds.append(json.load(open(rp))['kind'])
+            except Exception: pass
     rows.append((prop, id, origin, what, 'caught in %s s' % secs if rc == '1' else 'MISSED (rc=%s)' % rc, kinds[0] if kinds else ''))
 rows.sort()
 out = ['| property | change | origin | what it does | quick check of the property (native engine) | first violation kind |', '|---|---|---|---|---|---|']
